@@ -436,12 +436,13 @@ pub fn run(run: &Run) {
     let mut t = sc("testnet-across-activation", NetID::Testnet, 0, base.clone(), if thorough { 7 } else { 5 });
     t.pre = vec![Action::Jump(498)];
     scs.push(t);
+    scs.extend(genesis_scenarios(["custom02-genesis-sym-feepool-stake", "custom02-genesis-erg-fees-stakes", "custom02-genesis-huge-mel-feepool"], NetID::Custom02, &pools, if thorough { 6 } else { 4 }));
     if thorough {
         scs.push(sc("mainnet-utxo", NetID::Mainnet, 0, base.clone(), 6));
         scs.push(sc("custom02-fees", NetID::Custom02, 65536, base, 6));
     }
     for sc in &scs {
-        let (_w, mut rootn) = root(sc.net, sc.fee_mult, true);
+        let (_w, mut rootn) = root_variant(sc.net, sc.fee_mult, true, sc.genesis);
         let scratch = Run::new("scratch", "quick");
         let eng = Engine::new(&scratch);
         for a in &sc.pre {
